@@ -31,7 +31,7 @@ Here is a semantic property of the library that is supposed to hold:
 Quantified over: {p['quantifier']['text']}
 ---
 
-TASK. Produce THREE different changes to the library's non-test source files, each of which BREAKS this property while the library still compiles and the whole existing test suite still passes, each with a demonstration (a new Go test file) that FAILS with the change applied and PASSES without it.
+TASK. Produce the requested number of different changes (see the round focus below; THREE unless it says otherwise) to the library's non-test source files, each of which BREAKS this property while the library still compiles and the whole existing test suite still passes, each with a demonstration (a new Go test file) that FAILS with the change applied and PASSES without it.
 
 Other engineers already tried the following ideas for this property — do NOT repeat them or close variants (same function + same mechanism):
 {chr(10).join(prior)}
